@@ -12,6 +12,7 @@ import (
 	"verif/harness/filterchk"
 	"verif/harness/histchk"
 	"verif/harness/httpchk"
+	"verif/harness/livechk"
 	"verif/harness/matchchk"
 	"verif/harness/optchk"
 	"verif/harness/phchk"
@@ -27,6 +28,7 @@ var checks = map[string]func(prop, tier string) int{
 	"C04": filterchk.MainC04,
 	"C05": func(p, t string) int { return algochk.MainWith(p, t, filterchk.C05SubPhase) },
 	"C06": readchk.Main,
+	"C08": livechk.MainC08,
 	"C10": fieldchk.Main,
 	"C12": phchk.Main,
 	"C13": matchchk.MainC13,
